@@ -215,6 +215,23 @@ class Scope:
         self._interruptable = False
         self._cancel_self.revoke()
 
+    def _suspend_interrupts(self):
+        """
+        Do not interrupt the owning activity until :py:meth:`_resume_interrupts`
+
+        Needed when the owner temporarily runs code that is not part of the scope,
+        e.g. the consumer of an async generator that yields from inside a scope.
+        """
+        self._disable_interrupts()
+        # a revoked interrupt cannot be re-used
+        self._cancel_self = CancelScope(self, 'Scope._cancel_self')
+
+    def _resume_interrupts(self):
+        """Allow interrupts again, and catch up on failures encountered meanwhile"""
+        self._interruptable = True
+        if self._child_failures:
+            self.__cancel__()
+
     async def _await_children(self):
         while self._children:
             for child in self._children[:]:
